@@ -85,7 +85,12 @@ theorem seedStage_ren (s : Sim) (mi : Nat) (p : String) (b : Bool) :
 theorem execFuel_ren (s : Sim) (mi : Nat) : execFuel (renSim a s) mi = execFuel s mi := by
   unfold execFuel
   simp only [renSim_mods, List.getElem?_map]
-  cases s.mods[mi]? <;> rfl
+  cases s.mods[mi]? with
+  | none => rfl
+  | some m =>
+    simp only [Option.map, renMod_localq, renMod_inject, renMod_tasks, List.map_map]
+    have : ((fun t => t.prog.length) ∘ renTask a) = (fun t : TaskRt => t.prog.length) := rfl
+    rw [this]
 
 theorem deactivate_ren (b : Bool) (s : Sim) (mi : Nat) : deactivate b (renSim a s) mi = renSim a (deactivate b s mi) := by
   unfold deactivate
@@ -146,6 +151,7 @@ theorem dropWait_ren (h : a.Inj) (p : List Timer.Slot) (w : Wait) :
     · simp only [hr, if_true]; exact removeEntry_ren a h p _ _
     · simp [hr]
   | selecting ss => simp only [renWait, dropWait]; exact foldRemove_ren a h ss p
+  | waiting n g => rfl
 
 theorem foldDropWait_ren (h : a.Inj) (ts : List TaskRt) :
     ∀ p : List Timer.Slot,
@@ -229,6 +235,36 @@ theorem moduleEvent_ren (h : a.Inj) (net : Net) (s : Sim) (mi : Nat) (cb : Callb
     · rfl
     · simp only [if_true]; rw [flush_ren, processShutdown_ren a h]
 
+theorem drain_ren (net : Net) (li : Nat) (fuel : Nat) :
+    ∀ s : Sim, drain net li fuel (renSim a s) = renSim a (drain net li fuel s) := by
+  induction fuel with
+  | zero => intro s; rfl
+  | succ n ih =>
+    intro s
+    simp only [drain, renSim_chans, List.getElem?_map]
+    cases s.chans[li]? with
+    | none => rfl
+    | some c =>
+      simp only [Option.map, renChan_busy]
+      by_cases hb : c.busy = true
+      · simp only [hb, if_true]
+      · simp only [hb]
+        cases hq : c.queue with
+        | nil => simp [renChan, hq]
+        | cons x r =>
+          obtain ⟨m, di⟩ := x
+          simp only [renChan, hq, List.map_cons]
+          rw [updChan_ren a s li _ (fun c => { c with queue := r }) (fun c => by simp [renChan]), transmit_ren]
+          exact ih _
+
+theorem unbusy_ren (net : Net) (s : Sim) (li : Nat) : unbusy net (renSim a s) li = renSim a (unbusy net s li) := by
+  unfold unbusy
+  have hlen : (((renSim a s).chans[li]?).map (·.queue.length)).getD 0 = ((s.chans[li]?).map (·.queue.length)).getD 0 := by
+    simp only [renSim_chans, List.getElem?_map]
+    cases s.chans[li]? <;> simp [renChan]
+  rw [hlen, updChan_ren a s li _ (fun c => { c with busy := false }) (fun c => by simp [renChan])]
+  exact drain_ren a net li _ _
+
 theorem dispatch_ren (h : a.Inj) (net : Net) (s : Sim) (ev : Option KEvent) :
     dispatch net a (renSim a s) (ev.map (renEv a)) = renSim a (dispatch net Ambient.canon s ev) := by
   cases ev with
@@ -239,6 +275,8 @@ theorem dispatch_ren (h : a.Inj) (net : Net) (s : Sim) (ev : Option KEvent) :
     | wakeup mi => exact moduleEvent_ren a h net s mi .wakeup true
     | restart mi => exact moduleEvent_ren a h net s mi .restart true
     | exitConn mi m => exact schedule_ren a s (.deliver mi m) s.now
+    | leave mi li m => exact sendVia_ren a net s mi li m true
+    | unbusy li => exact unbusy_ren a net s li
 
 theorem step_ren (h : a.Inj) (net : Net) (s : Sim) :
     step net a (renSim a s) = (step net Ambient.canon s).map (renSim a) := by
@@ -298,18 +336,25 @@ theorem simEnd_ren (h : a.Inj) (net : Net) (s : Sim) :
   exact foldEvents_ren a h net .end_ rfl false _ s
 
 theorem init_ren (net : Net) (stream : List Nat) : init net a stream = renSim a (init net Ambient.canon stream) := by
-  simp [init, renSim, renMod, Ambient.canon]
+  simp [init, renSim, renMod, Ambient.canon, renChan, Function.comp]
+
+/-- the run from `renSim a s0` under ambient `a` is the renaming of the canonical run from `s0` -/
+theorem finalSimFrom_ren (h : a.Inj) (net : Net) (fuel : Nat) (s0 : Sim) :
+    finalSimFrom net a fuel (renSim a s0) =
+      (renSim a (finalSimFrom net Ambient.canon fuel s0).1, (finalSimFrom net Ambient.canon fuel s0).2) := by
+  unfold finalSimFrom
+  simp only [simStart_ren a h, loop_ren a h, renSim_fault]
+  generalize loop net Ambient.canon fuel (simStart net Ambient.canon s0) 0 = r
+  cases r.1.fault with
+  | some f => rfl
+  | none => simp only [simEnd_ren a h]
 
 /-- the run under ambient `a` is the renaming of the canonical run -/
 theorem finalSim_ren (h : a.Inj) (net : Net) (stream : List Nat) (fuel : Nat) :
     finalSim net a stream fuel =
       (renSim a (finalSim net Ambient.canon stream fuel).1, (finalSim net Ambient.canon stream fuel).2) := by
   unfold finalSim
-  simp only [init_ren a, simStart_ren a h, loop_ren a h, renSim_fault]
-  generalize loop net Ambient.canon fuel (simStart net Ambient.canon (init net Ambient.canon stream)) 0 = r
-  cases r.1.fault with
-  | some f => rfl
-  | none => simp only [simEnd_ren a h]
+  rw [init_ren a, finalSimFrom_ren a h]
 
 theorem unfinishedOf_ren (ms : List ModRt) : unfinishedOf (ms.map (renMod a)) = unfinishedOf ms := by
   unfold unfinishedOf
@@ -318,10 +363,19 @@ theorem unfinishedOf_ren (ms : List ModRt) : unfinishedOf (ms.map (renMod a)) = 
   | cons m r ih =>
     simp only [List.map_cons, List.flatMap_cons, ih, renMod_tasks, renMod_path, filterUnfinished_ren]
 
+theorem resultOf_ren (r : Sim × Nat) : resultOf (renSim a r.1, r.2) = resultOf r := by
+  simp [resultOf, unfinishedOf_ren]
+
 theorem run_ren (h : a.Inj) (net : Net) (stream : List Nat) (fuel : Nat) :
     run net a stream fuel = run net Ambient.canon stream fuel := by
   unfold run
   rw [finalSim_ren a h]
-  simp [unfinishedOf_ren]
+  exact resultOf_ren a _
+
+/-- whatever the previous simulation of the process left behind, the next one starts as `init` does: `buf_drop`
+    emptied the emission buffer, `buf_init` / `Builder::build` reset clock and generator; only the id counters
+    carry on -/
+theorem initFrom_eq (g : Globals) (net : Net) (a : Ambient) (stream : List Nat) :
+    initFrom g net a stream = init net (a.after g.modIds g.sleepIds) stream := rfl
 
 end Repro
